@@ -276,6 +276,8 @@ def main(mod, argv):
             cases.append(Case(read_replay(p), 'corpus:' + os.path.basename(p)))
         cases.extend(mod.cases(tier, a.seed, rng))
         failures, stats = execute(ctx, cases)
+        if hasattr(mod, 'judge'):
+            failures = [f for f in failures if mod.judge(f)]     # a check may restrict which verdict kinds it judges (C16: FATAL only)
 
         known = [k for k in load_known() if k.get('property') == pid and k.get('status') == 'known']
         seen_known = {}
